@@ -53,6 +53,9 @@ type gridOpts struct {
 	// StatusAhead: status left by another writer (observedGeneration ahead of generation, counters zero)
 	StatusAhead bool
 	Far         []int // extra Ready pods at these multi-digit ordinals in every population
+	// UnknownPhase: the basic alphabet also has a pod whose phase is Unknown (node unreachable) and not Ready: it exists,
+	// so its ordinal is occupied (C04)
+	UnknownPhase bool
 }
 
 func p32(i int32) *int32 { return &i }
@@ -62,7 +65,7 @@ func strategiesFor(n int) []gen.Strategy {
 }
 
 // alphabet of pod cells for a history.
-func alphabet(h history, rich bool) []gen.Cell {
+func alphabet(h history, rich, unknownPhase bool) []gen.Cell {
 	cells := []gen.Cell{gen.Absent}
 	revIdx := []int{}
 	for i := range h.Revs {
@@ -95,6 +98,9 @@ func alphabet(h history, rich bool) []gen.Cell {
 		add(gen.Cell{Present: true, Phase: v1.PodPending, Ready: true, Rev: len(h.Revs) - 1})
 		if rich {
 			add(gen.Cell{Present: true, Phase: v1.PodUnknown, Ready: true, Rev: len(h.Revs) - 1})
+		}
+		if unknownPhase {
+			add(gen.Cell{Present: true, Phase: v1.PodUnknown, Rev: len(h.Revs) - 1})
 		}
 	}
 	// a pod whose label names no stored revision
@@ -159,7 +165,7 @@ func snapshotGrid(o gridOpts, emit func(explore.Case) bool) {
 		}
 	}
 	for _, h := range o.Histories {
-		alpha := alphabet(h, o.Rich)
+		alpha := alphabet(h, o.Rich, o.UnknownPhase)
 		for r := o.MinR; r <= o.MaxR; r++ {
 			for si, slots := range slotSets {
 				des := desiredOf(r, slots)
